@@ -1,4 +1,4 @@
-(** Model of src/epd2in7_v2/mod.rs — STUB, not yet transcribed. *)
+(** Model of src/epd2in7_v2/mod.rs (type-A command set). *)
 From Coq Require Import List NArith Bool.
 From EPD Require Import Iface Ops Drv.Luts.
 Import ListNotations.
@@ -8,11 +8,95 @@ Open Scope m_scope.
 Module Epd2in7_v2.
 Definition WIDTH : N := 176.
 Definition HEIGHT : N := 264.
+Definition IS_BUSY_LOW := false.
 
-Definition init : M unit := ret tt.
+Definition wait_until_idle : M unit := wait_idle IS_BUSY_LOW.
 
-Definition exec (k : N) (o : op) : option (M rval) := None.
+Definition command (c : N) : M unit := cmd c.
+
+Definition set_ram_area (sx sy ex ey : N) : M unit :=
+  assert (sx <? ex) ;;
+  assert (sy <? ey) ;;
+  cmd_with_data 0x44 [u8 (shr sx 3); u8 (shr ex 3)] ;;
+  cmd_with_data 0x45 [u8 (band sy 0xFF); u8 (band (shr sy 8) 0x01);
+                      u8 (band ey 0xFF); u8 (band (shr ey 8) 0x01)].
+
+Definition set_ram_counter (x y : N) : M unit :=
+  wait_until_idle ;;
+  cmd_with_data 0x4E [u8 (band x 0xFF)] ;;
+  cmd_with_data 0x4F [u8 (band y 0xFF); u8 (band (shr y 8) 0x01)].
+
+Definition use_full_frame : M unit :=
+  set_ram_area 0 0 (WIDTH - 1) (HEIGHT - 1) ;;
+  set_ram_counter 0 0.
+
+Definition init : M unit :=
+  reset 200000 2000 ;;
+  wait_until_idle ;;
+  command 0x12 ;;
+  wait_until_idle ;;
+  use_full_frame ;;
+  cmd_with_data 0x11 [0x03].
+
+Definition sleep : M unit :=
+  wait_until_idle ;;
+  cmd_with_data 0x10 [0x01].
+
+Definition update_frame (k len : N) : M unit :=
+  wait_until_idle ;;
+  use_full_frame ;;
+  cmd_with_data_e 0x24 (DArg k 0 0 len).
+
+Definition update_partial_frame (k len x y w h : N) : M unit :=
+  wait_until_idle ;;
+  ex <- add32 x w ;;
+  ey <- add32 y h ;;
+  set_ram_area x y ex ey ;;
+  set_ram_counter x y ;;
+  cmd_with_data_e 0x24 (DArg k 0 0 len).
+
+Definition display_frame : M unit :=
+  wait_until_idle ;;
+  s <- get ;;
+  (if refresh s =? 0 then cmd_with_data 0x22 [0xF7]
+   else if refresh s =? 1 then cmd_with_data 0x22 [0xC7]
+   else ret tt) ;;
+  cmd 0x20 ;;
+  wait_until_idle.
+
+Definition update_and_display_frame (k len : N) : M unit :=
+  update_frame k len ;;
+  display_frame.
+
+Definition clear_frame : M unit :=
+  wait_until_idle ;;
+  use_full_frame ;;
+  s <- get ;;
+  let color := if bg s =? cWhite then 0xff else 0x00 in
+  cmd 0x24 ;;
+  data_x_times color (WIDTH / 8 * HEIGHT).
+
+Definition set_lut (r : option N) : M unit :=
+  match r with Some v => modify (set_refresh v) | None => ret tt end.
+
+Definition exec (k : N) (o : op) : option (M rval) :=
+  match o with
+  | OSleep => unit_ sleep
+  | OWakeUp => unit_ init
+  | OSetBg c => unit_ (modify (set_bg c))
+  | OGetBg => Some (s <- get ;; ret (RColor (bg s)))
+  | OWidth => Some (ret (RNum WIDTH))
+  | OHeight => Some (ret (RNum HEIGHT))
+  | OUpdateFrame len => unit_ (update_frame k len)
+  | OUpdatePartial len x y w h => unit_ (update_partial_frame k len x y w h)
+  | ODisplay => unit_ display_frame
+  | OUpdateAndDisplay len => unit_ (update_and_display_frame k len)
+  | OClear => unit_ clear_frame
+  | OSetLut r => unit_ (set_lut r)
+  | OWaitIdle => unit_ wait_until_idle
+  | _ => None
+  end.
 
 Definition drv (ft : feat) : driver :=
-  mkDriver WIDTH HEIGHT true d0 init exec.
+  mkDriver WIDTH HEIGHT true (mkD cWhite 0 false false 0 None) init exec.
 End Epd2in7_v2.
